@@ -17,8 +17,9 @@
        (a repeated name is rejected by the parser), delta of a DFA / NFA / TM is a dict (unique keys);
      - every state name matches \w+ (re_word; in particular it does not start with '%');
      - every state that is the SOURCE of a printed transition is not one of states / final / initial / a keyword of the
-       format — for parse_dfa ALL seven keywords of the four formats (kw_dfa), because parse_dfa passes no keyword
-       set; target-only states such as the default halting states `accept` / `reject` of a TM are unrestricted;
+       format (kw_dfa = input_symbols only: parse_dfa passes dfa_keywords(), so a DFA state may be named like a
+       keyword of another format, e.g. blank / accept); target-only states such as the default halting states
+       `accept` / `reject` of a TM are unrestricted;
      - DFA / NFA input symbols match \w+ (they may be longer than one character), the NFA epsilon is a non-empty word;
      - PDA input symbols and epsilon are single \w characters, stack symbols single characters of the label class;
        TM tape symbols (incl. blank) are single characters of the TM label class.
@@ -82,10 +83,26 @@ Module C16_witness.
   Local Open Scope string_scope.
   Import ParserExamples.
 
-  Theorem C16_dfa_keyword_state_rejected :
+  Theorem C16_dfa_other_keyword_state_ok :
     let D := mkTDFA [tok "blank"] [tok "a"] [((tok "blank", tok "a"), tok "blank")] (tok "blank") [] in
+    tdfa_wf_b D = true /\ parse_dfa (print_dfa idT idP D) = Some D.
+  Proof. exact dfa_other_keyword_state_ok. Qed.
+
+  Theorem C16_dfa_accept_state_ok :
+    let D := mkTDFA [tok "accept"; tok "reject"] [tok "a"]
+               [((tok "accept", tok "a"), tok "reject"); ((tok "reject", tok "a"), tok "accept")] (tok "accept") [tok "accept"] in
+    tdfa_wf_b D = true /\ parse_dfa (print_dfa idT idP D) = Some D.
+  Proof. exact dfa_accept_state_ok. Qed.
+
+  Theorem C16_dfa_keyword_state_rejected :
+    let D := mkTDFA [tok "input_symbols"] [tok "a"] [((tok "input_symbols", tok "a"), tok "input_symbols")] (tok "input_symbols") [] in
     tdfa_wf_b D = true /\ parse_dfa (print_dfa idT idP D) = None.
   Proof. exact dfa_keyword_state_rejected. Qed.
+
+  Theorem C16_dfa_states_state_rejected :
+    let D := mkTDFA [tok "states"] [tok "a"] [((tok "states", tok "a"), tok "states")] (tok "states") [] in
+    tdfa_wf_b D = true /\ parse_dfa (print_dfa idT idP D) = None.
+  Proof. exact dfa_states_state_rejected. Qed.
 
   Theorem C16_nfa_other_keyword_state_ok :
     let N := mkTNFA [tok "blank"] [tok "a"] [((tok "blank", tok "a"), [tok "blank"])] (tok "blank") [] (tok "_") in
@@ -140,7 +157,10 @@ Print Assumptions C16_print_parse_pda.
 Print Assumptions C16_print_parse_tm.
 Print Assumptions C16_regroup_perm.
 Print Assumptions C16_re_word_not_percent.
+Print Assumptions C16_witness.C16_dfa_other_keyword_state_ok.
+Print Assumptions C16_witness.C16_dfa_accept_state_ok.
 Print Assumptions C16_witness.C16_dfa_keyword_state_rejected.
+Print Assumptions C16_witness.C16_dfa_states_state_rejected.
 Print Assumptions C16_witness.C16_nfa_other_keyword_state_ok.
 Print Assumptions C16_witness.C16_nfa_keyword_state_rejected.
 Print Assumptions C16_witness.C16_tm_default_halting_names_ok.
